@@ -88,7 +88,10 @@ func RegisterTypeOf(v any) error {
 
 		fenc := func(value reflect.Value, b *lib.Buffer, _ *stateEncode) error {
 			v := value.Interface().(Marshaler)
-			buf := b.Extend(4)
+			// MarshalEDF may make the buffer grow (new backing array), so the place of
+			// the length prefix is kept as an offset, not as a slice
+			off := b.Len()
+			b.Extend(4)
 			l := b.Len()
 			if err := v.MarshalEDF(b); err != nil {
 				return err
@@ -98,7 +101,7 @@ func RegisterTypeOf(v any) error {
 			if int64(lenBinary) > int64(math.MaxUint32-1) {
 				return ErrBinaryTooLong
 			}
-			binary.BigEndian.PutUint32(buf, uint32(lenBinary))
+			binary.BigEndian.PutUint32(b.B[off:off+4], uint32(lenBinary))
 			return nil
 		}
 		encoders.Store(tov, regEncoder(name, fenc))
